@@ -5,6 +5,7 @@ import (
 	"context"
 	"fmt"
 	"io"
+	"math/rand"
 	"strings"
 	"time"
 	"unicode/utf8"
@@ -33,7 +34,9 @@ import (
 //	life:refresh-refused  a connection was registered, then the back-end's
 //	              descriptors changed and the second RegisterConn (refresh) of
 //	              the same connection was refused
-var lifeStates = []string{"life:new", "life:failed", "life:dropped", "life:refresh-refused"}
+//	life:replaced  a service served by several connections, one of them
+//	              replaced after traffic (A+B, traffic, drop B, register C)
+var lifeStates = []string{"life:new", "life:failed", "life:dropped", "life:refresh-refused", "life:replaced"}
 
 // failingSet is rejected by registration (unknown field in the template).
 func failingSet() *RSet {
@@ -44,9 +47,10 @@ func failingSet() *RSet {
 }
 
 type lifeTarget struct {
-	t  *target
-	px *proxyTarget     // back-end of life:dropped
-	be *backend.Backend // back-end of life:refresh-refused
+	t   *target
+	px  *proxyTarget       // back-end of life:dropped
+	be  *backend.Backend   // back-end of life:refresh-refused
+	bes []*backend.Backend // back-ends of life:replaced
 }
 
 func (l *lifeTarget) close() {
@@ -56,6 +60,82 @@ func (l *lifeTarget) close() {
 	if l.be != nil {
 		l.be.Close()
 	}
+	for _, b := range l.bes {
+		b.Close()
+	}
+}
+
+// newReplaced builds muxes whose service is served by two connections (A, B),
+// that carried traffic (URL-bound fields, body selectors, every entry), and
+// where B was then dropped and a third back-end C registered: three
+// generations of descriptor instances have existed for the same routes.
+func newReplaced() (*lifeTarget, error) {
+	quietGRPC.Do(func() { grpclog.SetLoggerV2(grpclog.NewLoggerV2(io.Discard, io.Discard, io.Discard)) })
+	std, err := svc.BuildStd("vf.rpl", "vf/rpl.proto", "/m1")
+	if err != nil {
+		return nil, err
+	}
+	backendBeh := &beh{}
+	l := &lifeTarget{}
+	for _, tag := range []string{"A", "B", "C"} {
+		be, err := backend.Start("replaced-"+tag, true, backend.Svc{SD: std.SD, Impl: backendBeh})
+		if err != nil {
+			l.close()
+			return nil, err
+		}
+		l.bes = append(l.bes, be)
+	}
+	l.t = &target{Kind: "life:replaced", cache: map[int]*built{}, eps: endpointsOf(std.SD), fd: std.FD}
+	rng := rand.New(rand.NewSource(99))
+	for opts := 0; opts < 8; opts++ {
+		mux, err := larking.NewMux(muxOptions(opts, &beh{})...)
+		if err != nil {
+			l.close()
+			return nil, err
+		}
+		bt := &built{mux, backendBeh}
+		reg := func(step string, f func(ctx context.Context) error) error {
+			ctx, cancel := context.WithTimeout(context.Background(), 20*time.Second)
+			defer cancel()
+			var err error
+			if pi := mon.Catch(func() { err = f(ctx) }); pi != nil {
+				return fmt.Errorf("life:replaced: %s panicked: %s", step, pi.Value)
+			}
+			if err != nil {
+				return fmt.Errorf("life:replaced: %s: %v", step, err)
+			}
+			return nil
+		}
+		traffic := func() {
+			for i := 0; i < 60; i++ {
+				c := genCaseN(rng, l.t, []string{"http", "http", "http", "ws-mem", "grpc"}, 0)
+				serveInproc(c, bt)
+			}
+		}
+		steps := []struct {
+			name string
+			f    func(ctx context.Context) error
+		}{
+			{"RegisterConn(A)", func(ctx context.Context) error { return mux.RegisterConn(ctx, l.bes[0].CC) }},
+			{"RegisterConn(B)", func(ctx context.Context) error { return mux.RegisterConn(ctx, l.bes[1].CC) }},
+			{"traffic", func(context.Context) error { traffic(); return nil }},
+			{"DropConn(B)", func(ctx context.Context) error {
+				if !mux.DropConn(ctx, l.bes[1].CC) {
+					return fmt.Errorf("connection unknown")
+				}
+				return nil
+			}},
+			{"RegisterConn(C)", func(ctx context.Context) error { return mux.RegisterConn(ctx, l.bes[2].CC) }},
+		}
+		for _, s := range steps {
+			if err := reg(s.name, s.f); err != nil {
+				l.close()
+				return nil, err
+			}
+		}
+		l.t.cache[opts] = bt
+	}
+	return l, nil
 }
 
 // newRefreshRefused builds muxes that registered a back-end successfully and
@@ -112,6 +192,9 @@ func newRefreshRefused() (*lifeTarget, error) {
 func newLifeTarget(state string) (*lifeTarget, error) {
 	if state == "life:refresh-refused" {
 		return newRefreshRefused()
+	}
+	if state == "life:replaced" {
+		return newReplaced()
 	}
 	l := &lifeTarget{}
 	switch state {
@@ -196,6 +279,7 @@ func runLifecycle(r *mon.Run) {
 		l, err := newLifeTarget(state)
 		if err != nil {
 			st.count("lifecycle_state_unavailable:"+state, 1)
+			r.Inconclusive("life-cycle state " + state + " could not be set up: " + err.Error())
 			continue
 		}
 		run := func(c *Case) bool {
